@@ -17,7 +17,13 @@
 // one after the other and overlapping, against connections that do not drain by themselves (idle keep-alive,
 // request parked at the origin, open tunnel, request head half sent), every call's result judged on its own;
 // on rig a the drain of HTTPProxy.Run ended early by a second shutdown signal (ShutdownSignals = SIGUSR1,
-// delivered to the child process that hosts the proxy), by the shutdown timeout, or not at all.
+// delivered to the child process that hosts the proxy), by the shutdown timeout, or not at all. A fourth
+// family (ctl.go genRunSig, server.go genServerSig) crosses the CONFIGURED SET of shutdown signals
+// {none, {SIGUSR1}, {SIGUSR1, SIGUSR2}} with the signals actually DELIVERED to the hosting process during the
+// drain {none, one of the set, harmless ones outside it (SIGWINCH, SIGURG, SIGCHLD, SIGUSR2 / SIGUSR1 when not
+// configured), several} on rigs a and s, with work that outlasts the deliveries and a long shutdown timeout: a
+// signal outside the set ends nothing (the exchange at the origin completes in full, the tunnel lives on), one of
+// the set ends the drain (Close: everything closed).
 package c11
 
 import (
@@ -54,6 +60,10 @@ type Case struct {
 	Calls    []Call `json:"calls,omitempty"`     // rig b: the calls made instead of Op (Family "ctl")
 	End      string `json:"end,omitempty"`       // rig a, Family "runend": what ends the drain: "signal" (a second shutdown signal SignalMs after the cancellation) | "timeout" | "drain"
 	SignalMs int    `json:"signal_ms,omitempty"` // rig a, End "signal"
+	// the signal matrix (ctl.go genRunSig, server.go genServerSig; rigs a and s)
+	SigCase bool      `json:"sig_case,omitempty"` // ShutdownSignals of the proxy / API server = Signals (possibly EMPTY); false: rig a family runend {SIGUSR1}, everything else the defaults
+	Signals []int     `json:"signals,omitempty"`  // the configured set, as signal numbers
+	Deliver []SigStep `json:"deliver,omitempty"`  // signals sent to the hosting process once the run context is cancelled
 	// rig "c" (micro.go): Trials tiny shutdowns over an in-memory listener, parameters drawn from MicroSeed
 	Trials    int    `json:"trials,omitempty"`
 	MicroSeed uint64 `json:"micro_seed,omitempty"`
